@@ -48,6 +48,7 @@ class ItemSpec:
         self.rewrites = []
         self.external_body = False
         self.pub_fields = False
+        self.split_arms = []
         self.props = []
         self.line = line
         self.vspec = None
@@ -121,6 +122,8 @@ def parse_vspec(path):
                 cur_item.external_body = True
             elif key == "pub_fields":
                 cur_item.pub_fields = True
+            elif key == "split_or_arm":
+                cur_item.split_arms.append((_unquote(rest), ln))
             elif key == "props":
                 cur_item.props = sorted(set(cur_item.props) | set(rest.split()))
             elif key == "default_props":
@@ -232,6 +235,75 @@ def emit_item(spec, repo, out, stats, vspec_path, cache):
                 ins(ls, b, "line_before")
             else:
                 ins(le + 1, b, "line_before")
+    # ---- R12: split or-pattern match arms (Verus: no or-pattern with bindings by &mut) ----
+    # `A(x) | B(x) => { body }` becomes `A(x) => { body } B(x) => { body' }` where body' is the
+    # same token sequence with comments dropped, written on one line so that line numbers of
+    # everything else are preserved.
+    edits = []  # (start, end, replacement) on src, non overlapping
+    kinds = None
+    for anchor, ln in spec.split_arms:
+        if kinds is None:
+            kinds = rsx.kind_mask(src)
+        j = src.find(anchor, item.start, item.end)
+        if j < 0 or src.find(anchor, j + 1, item.end) >= 0:
+            raise Lost("%s: split_or_arm anchor %r not unique" % (fn, anchor))
+        # pattern start = first non-space char of the line
+        ls = rsx.line_start(src, j)
+        ps = ls + (len(src[ls:]) - len(src[ls:].lstrip(" \t")))
+        # find `=>` at depth 0
+        k = ps
+        d = 0
+        arrow = None
+        while k < item.end:
+            if mask[k]:
+                c = src[k]
+                if c in "([{":
+                    d += 1
+                elif c in ")]}":
+                    d -= 1
+                elif d == 0 and src.startswith("=>", k):
+                    arrow = k
+                    break
+            k += 1
+        if arrow is None:
+            raise Lost("%s: split_or_arm: no => after %r" % (fn, anchor))
+        # alternatives split at top-level `|`
+        alts = []
+        cur = ps
+        d = 0
+        for k in range(ps, arrow):
+            if mask[k]:
+                c = src[k]
+                if c in "([{":
+                    d += 1
+                elif c in ")]}":
+                    d -= 1
+                elif d == 0 and c == "|":
+                    alts.append((cur, k))
+                    cur = k + 1
+        alts.append((cur, arrow))
+        if len(alts) < 2:
+            raise Lost("%s: split_or_arm: %r has no alternatives" % (fn, anchor))
+        # body block
+        b = arrow + 2
+        while src[b] in " \t\n":
+            b += 1
+        if src[b] != "{" or not mask[b]:
+            raise Lost("%s: split_or_arm: arm body is not a block" % fn)
+        be = rsx.match_delim(src, mask, b) + 1
+        body_one = "".join(ch for idx, ch in zip(range(b, be), src[b:be]) if kinds[idx] != 0)
+        body_one = " ".join(body_one.split())
+        # blank out alternatives 2.. in the pattern (keep newlines)
+        for (a0, a1) in alts[1:]:
+            seg = src[a0 - 1:a1]  # includes the `|`
+            edits.append((a0 - 1, a1, "".join("\n" if ch == "\n" else " " for ch in seg)))
+        extra = ""
+        for (a0, a1) in alts[1:]:
+            alt = "".join(ch for idx, ch in zip(range(a0, a1), src[a0:a1]) if kinds[idx] != 0)
+            extra += " " + " ".join(alt.split()) + " => " + body_one
+        edits.append((be, be, extra))
+        stats["rewrites"].setdefault("R12", 0)
+        stats["rewrites"]["R12"] += len(alts) - 1
     # ---- emit ----
     text_start = item.start
     line0 = rsx.line_of(src, text_start)
@@ -247,6 +319,31 @@ def emit_item(spec, repo, out, stats, vspec_path, cache):
             pieces.append(("ins", b, mode))
         cur = off
     pieces.append(("src", src[cur:item.end], rsx.line_of(src, cur)))
+    if edits:
+        # re-slice with edits applied: walk pieces again with absolute offsets
+        edits.sort()
+        new_pieces = []
+        pos = text_start
+        for p in pieces:
+            if p[0] != "src":
+                new_pieces.append(p)
+                continue
+            a, bnd = pos, pos + len(p[1])
+            txt = ""
+            c0 = a
+            for (e0, e1, rep) in edits:
+                if e0 < a or e0 > bnd or (e0 == bnd and e1 > bnd):
+                    continue
+                if e1 > bnd:
+                    raise Lost("%s: split_or_arm edit crosses an insertion point" % fn)
+                if e0 < c0:
+                    continue
+                txt += src[c0:e0] + rep
+                c0 = e1
+            txt += src[c0:bnd]
+            new_pieces.append(("src", txt, p[2]))
+            pos = bnd
+        pieces = new_pieces
     # apply rewrites on src pieces (literal, counted over the whole item)
     counts = {}
     for rid, want, old, new, ln in spec.rewrites:
@@ -328,6 +425,7 @@ def generate(unit_dir, repo, out_path):
     stats = {"rewrites": {}, "external_body": [], "items": [], "raw": []}
     cache = {}
     out.add("// GENERATED by /verif/extract/gen.py from /repo -- do not edit", "gen", None, None)
+    out.add("#![feature(allocator_api)]", "gen", None, None)
     out.add("#![allow(unused, non_snake_case, non_camel_case_types, unreachable_code, unused_parens, unused_braces, non_upper_case_globals)]", "gen", None, None)
     for kind, part in unit["parts"]:
         if kind == "text":
